@@ -183,3 +183,180 @@ func jsonCrossCheck(bin string, p *idl.Program, dir string) (kind, text string, 
 	}
 	return "descriptor-differs:" + leaf, t, programTexts(p, st)
 }
+
+// ---- descriptor witnesses: annotations on type uses ------------------------
+//
+// The model of verif/idl has no annotations on type expressions, so the
+// random pool never writes `string (format = "uuid")`.  The descriptor
+// carries them (`a`), and every use of a type is its own descriptor: an
+// annotated use has exactly its own annotations, an un-annotated use of the
+// same base type has none -- in fields, typedefs, arguments, return types,
+// container elements, in one file and across includes.  Hand-written programs
+// with the descriptor they declare, run on every invocation.
+
+type jsonWitness struct {
+	Name  string
+	Files [][2]string // relative path, text; last = root
+	Want  map[string]interface{}
+}
+
+func jb(name string) map[string]interface{} { return map[string]interface{}{"b": name} }
+func jba(name, k, v string) map[string]interface{} {
+	return map[string]interface{}{"b": name, "a": map[string]interface{}{k: v}}
+}
+func jfield(name string, t map[string]interface{}) map[string]interface{} {
+	return map[string]interface{}{"n": name, "t": t}
+}
+
+type jm = map[string]interface{}
+
+func jsonWitnesses() []jsonWitness {
+	inc := `typedef string (format = "uuid") Uuid
+typedef string Plain
+
+struct Q {
+  1: string plain,
+  2: i64 (js.type = "Long") big,
+  3: i64 small
+}
+`
+	root := `include "inc.frugal"
+
+typedef i64 (js.type = "Long") Big
+typedef list<string (format = "email")> Emails
+typedef list<string> Names
+
+struct P {
+  1: string s,
+  2: string (format = "uuid") id,
+  3: i64 n,
+  4: map<string (k = "1"), i64> m,
+  5: inc.Uuid u,
+  6: binary (enc = "b64") blob,
+  7: binary raw,
+  8: list<string> tags
+}
+
+service S {
+  string echo(1: string (format = "uuid") id, 2: string msg, 3: list<i64 (js.type = "Long")> xs, 4: list<i64> ys),
+  i64 (js.type = "Long") count(),
+  i64 size()
+}
+
+scope Ev {
+  Said: string
+}
+`
+	want := jm{
+		"inc": jm{"t": jm{
+			"Uuid":  jba("string", "format", "uuid"),
+			"Plain": jb("string"),
+			"Q": jm{"s": jm{
+				"1": jfield("plain", jb("string")),
+				"2": jfield("big", jba("i64", "js.type", "Long")),
+				"3": jfield("small", jb("i64")),
+			}},
+		}},
+		"main": jm{
+			"t": jm{
+				"Big":    jba("i64", "js.type", "Long"),
+				"Emails": jm{"v": jba("string", "format", "email")},
+				"Names":  jm{"v": jb("string")},
+				"P": jm{"s": jm{
+					"1": jfield("s", jb("string")),
+					"2": jfield("id", jba("string", "format", "uuid")),
+					"3": jfield("n", jb("i64")),
+					"4": jfield("m", jm{"k": jba("string", "k", "1"), "v": jb("i64")}),
+					"5": jfield("u", jm{"n": "inc.Uuid"}),
+					"6": jfield("blob", jba("binary", "enc", "b64")),
+					"7": jfield("raw", jb("binary")),
+					"8": jfield("tags", jm{"v": jb("string")}),
+				}},
+			},
+			"s": jm{"S": jm{"m": jm{
+				"echo": jm{
+					"p": jm{
+						"1": jfield("id", jba("string", "format", "uuid")),
+						"2": jfield("msg", jb("string")),
+						"3": jfield("xs", jm{"v": jba("i64", "js.type", "Long")}),
+						"4": jfield("ys", jm{"v": jb("i64")}),
+					},
+					"r": jm{"0": jm{"t": jb("string")}},
+				},
+				"count": jm{"r": jm{"0": jm{"t": jba("i64", "js.type", "Long")}}},
+				"size":  jm{"r": jm{"0": jm{"t": jb("i64")}}},
+			}}},
+			"c": jm{"Ev": jm{"p": "", "o": jm{"Said": jb("string")}}},
+		},
+	}
+	// the same declarations in one file, un-annotated uses first and last
+	single := `struct A {
+  1: string before,
+  2: string (format = "uuid") id,
+  3: string after
+}
+
+typedef string (max = "10") Short
+typedef string Long
+
+struct B {
+  1: string again
+}
+`
+	wantSingle := jm{"w": jm{"t": jm{
+		"A": jm{"s": jm{
+			"1": jfield("before", jb("string")),
+			"2": jfield("id", jba("string", "format", "uuid")),
+			"3": jfield("after", jb("string")),
+		}},
+		"Short": jba("string", "max", "10"),
+		"Long":  jb("string"),
+		"B":     jm{"s": jm{"1": jfield("again", jb("string"))}},
+	}}}
+	return []jsonWitness{
+		{Name: "across-includes", Files: [][2]string{{"inc.frugal", inc}, {"main.frugal", root}}, Want: want},
+		{Name: "one-file", Files: [][2]string{{"w.frugal", single}}, Want: wantSingle},
+	}
+}
+
+// runJSONWitness returns "" when the descriptor equals the declared one.
+func runJSONWitness(bin string, w jsonWitness, dir string) (kind, text string, files map[string]string) {
+	defer os.RemoveAll(dir)
+	files = map[string]string{}
+	root := ""
+	for _, f := range w.Files {
+		path := filepath.Join(dir, filepath.FromSlash(f[0]))
+		os.MkdirAll(filepath.Dir(path), 0o755)
+		os.WriteFile(path, []byte(f[1]), 0o644)
+		files[f[0]] = f[1]
+		root = path
+	}
+	outDir := filepath.Join(dir, "out")
+	os.MkdirAll(outDir, 0o755)
+	r := emit.Run(bin, dir, 120*time.Second, "-gen", "json", "-out", outDir, root)
+	if r.TimedOut {
+		return "timeout", "frugal -gen json did not finish within 120 s", files
+	}
+	if r.ExitCode != 0 {
+		return "compiler-failed", fmt.Sprintf("frugal -gen json exit %d: %s %s", r.ExitCode, cleanMsg(r.Stdout), cleanMsg(r.Stderr)), files
+	}
+	b, err := os.ReadFile(filepath.Join(outDir, "frugal.json"))
+	if err != nil {
+		return "no-output", "frugal -gen json wrote no frugal.json: " + err.Error(), files
+	}
+	var got map[string]interface{}
+	if err := json.Unmarshal(b, &got); err != nil {
+		return "bad-json", "frugal.json is not JSON: " + err.Error(), files
+	}
+	if sameTree(w.Want, normJSON(got)) {
+		return "", "", nil
+	}
+	t := ""
+	for i, d := range diffTrees(w.Want, normJSON(got), "declared", "descriptor", 8) {
+		if i > 0 {
+			t += " | "
+		}
+		t += d.Text
+	}
+	return "differs", t, files
+}
